@@ -50,7 +50,7 @@ public:
         }
         // distribute `own` of them to every task, chosen by the case seed so that they spread over the leaves
         vsim::Rng r;
-        r.seed(mix64(spec.seed, 0xa110c));
+        r.seed(mix64(spec.seed + static_cast<uint64_t>(spec.rep), 0xa110c));
         for (int t = 0; t < nTasks; ++t)
             for (long k = 0; k < own && !taken.empty(); ++k) {
                 const size_t idx = static_cast<size_t>(r.range(0, taken.size() - 1));
